@@ -13,6 +13,7 @@ import (
 	"strconv"
 	"strings"
 	"sync"
+	"syscall"
 	"time"
 
 	"verif/sim/tape"
@@ -101,6 +102,52 @@ func scratchDir() string {
 // violation class and detail when the child dies or does not return in time,
 // "" when it completes.
 func ConfirmCrash(exe, id string, runSeed uint64, tp []uint64, tier string, timeoutS float64, extraEnv []string) (string, string) {
+	return confirmCrash(exe, id, runSeed, tp, tier, timeoutS, extraEnv, false)
+}
+
+// busyLibraryFrame looks through a goroutine dump for a goroutine that is
+// running or runnable and whose innermost frame outside the standard library
+// belongs to the library under test; it returns that frame.
+func busyLibraryFrame(dump string) string {
+	for _, blk := range strings.Split(dump, "\n\n") {
+		lines := strings.Split(strings.TrimSpace(blk), "\n")
+		if len(lines) < 2 || !strings.HasPrefix(lines[0], "goroutine ") {
+			continue
+		}
+		if !strings.Contains(lines[0], "[running") && !strings.Contains(lines[0], "[runnable") {
+			continue
+		}
+		for _, ln := range lines[1:] {
+			if strings.HasPrefix(ln, "\t") || strings.HasPrefix(ln, "created by ") {
+				continue
+			}
+			fn := ln
+			if i := strings.LastIndex(fn, "("); i > 0 {
+				fn = fn[:i]
+			}
+			first := fn
+			if i := strings.Index(first, "/"); i >= 0 {
+				first = first[:i]
+			}
+			if !strings.Contains(first, ".") || strings.HasPrefix(fn, "runtime.") {
+				// standard library (no dot in the first path element) or runtime
+				if !strings.HasPrefix(fn, "github.com/") && !strings.HasPrefix(fn, "verif/") && !strings.HasPrefix(fn, "main.") {
+					continue
+				}
+			}
+			if strings.HasPrefix(fn, "github.com/uhn/ggql/pkg/ggql.") {
+				if strings.Contains(fn, "Verif") || strings.Contains(fn, "verif") {
+					break // the generated shim: the task is inside the simulator
+				}
+				return strings.TrimPrefix(fn, "github.com/uhn/ggql/pkg/ggql.")
+			}
+			break // the innermost non-library frame is harness code
+		}
+	}
+	return ""
+}
+
+func confirmCrash(exe, id string, runSeed uint64, tp []uint64, tier string, timeoutS float64, extraEnv []string, attribute bool) (string, string) {
 	args := []string{"one", id, strconv.FormatUint(runSeed, 10), tier}
 	if len(tp) > 0 {
 		var parts []string
@@ -111,6 +158,16 @@ func ConfirmCrash(exe, id string, runSeed uint64, tp []uint64, tier string, time
 	}
 	cmd := exec.Command(exe, args...)
 	cmd.Env = append(os.Environ(), extraEnv...)
+	if attribute {
+		cmd.Env = append(cmd.Env, "GOTRACEBACK=crash")
+	}
+	for i, e := range cmd.Env {
+		// (a child built with the race detector must not turn reported races
+		// into a non-zero exit status: only a process that dies counts here)
+		if strings.HasPrefix(e, "GORACE=") && !strings.Contains(e, "exitcode=") {
+			cmd.Env[i] = e + " exitcode=0"
+		}
+	}
 	var out bytes.Buffer
 	cmd.Stdout = &bytes.Buffer{}
 	cmd.Stderr = &out
@@ -154,6 +211,21 @@ func ConfirmCrash(exe, id string, runSeed uint64, tp []uint64, tier string, time
 		}
 		return cls, fmt.Sprintf("run seed %d kills the process (%v): %s\n%s", runSeed, err, first, txt)
 	case <-time.After(time.Duration((timeoutS + 10) * float64(time.Second))):
+		if attribute {
+			// ask the child for its goroutine stacks before it goes
+			_ = cmd.Process.Signal(syscall.SIGQUIT)
+			select {
+			case <-done:
+			case <-time.After(20 * time.Second):
+				_ = cmd.Process.Kill()
+				<-done
+			}
+			frame := busyLibraryFrame(out.String())
+			if frame == "" {
+				return "", "" // everything parked, or the harness is the one computing: not the library's doing
+			}
+			return "hang:" + frame, fmt.Sprintf("run seed %d does not return within %.0f s in a fresh process, and the goroutine dump shows library code computing (innermost frame %s) rather than anything parked (reproduce: verif one %s %d %s)", runSeed, timeoutS+10, frame, id, runSeed, tier)
+		}
 		_ = cmd.Process.Kill()
 		<-done
 		return "hang", fmt.Sprintf("run seed %d does not return within %.0f s in a fresh process (reproduce: verif one %s %d %s)", runSeed, timeoutS+10, id, runSeed, tier)
@@ -691,7 +763,11 @@ func confirmOne(c Check, cc CrashChecker, exe, tier string, seed uint64, w int, 
 	if !ok {
 		return
 	}
-	class, detail := ConfirmCrash(exe, c.ID(), rs, jt, tier, cc.RunTimeout(), extraEnv)
+	attribute := false
+	if ha, ok := c.(HangAttributor); ok {
+		attribute = ha.HangNeedsLibraryFrame()
+	}
+	class, detail := confirmCrash(exe, c.ID(), rs, jt, tier, cc.RunTimeout(), extraEnv, attribute)
 	if class == "" {
 		return // not reproduced: stays harness trouble
 	}
@@ -725,7 +801,11 @@ func RunReplay(c Check, rf *ReplayFile) int {
 		if cc, ok := c.(CrashChecker); ok {
 			tout = cc.RunTimeout()
 		}
-		class, detail := ConfirmCrash(exe, c.ID(), rf.RunSeed, rf.Tape, rf.Tier, tout, nil)
+		attribute := false
+		if ha, ok := c.(HangAttributor); ok {
+			attribute = ha.HangNeedsLibraryFrame()
+		}
+		class, detail := confirmCrash(exe, c.ID(), rf.RunSeed, rf.Tape, rf.Tier, tout, nil, attribute)
 		if class != "" {
 			fmt.Printf("REPRODUCED class=%q\n%s\nVIOLATION property=%s replay=(this file)\n", class, detail, rf.Property)
 			return 1
